@@ -36,7 +36,12 @@ FRESH_EVERY = {"quick": 20, "thorough": 12}
 RULE = ("each evaluation is one simulated run: a corpus of 3-8 texts, 1-4 caller threads with "
         "1-6 parse operations each, one seeded schedule and one fault sub-batch. Distinct = "
         "distinct plan digest; non-trivial = >= 2 operations on >= 2 distinct texts and (>= 1 "
-        "context switch in the middle of an operation or >= 1 fired fault)")
+        "context switch in the middle of an operation or >= 1 fired fault). Sub-batches: none / "
+        "result-preserving I/O / EIO / abort (uniform, targeted at function families, or aimed at "
+        "cold lines that only the first parse of a process executes) / cache_clear / long "
+        "histories / caller-object faults (log handler raises or re-enters the parser, selection "
+        "sequence raises, reader raises); half of the runs without faults replace stored files in "
+        "place by same-length texts with the same modification time")
 ASSUMPTIONS = [
     "the reference is one parse of the same text by the real package in a process forked from "
     "the pristine image (chartparse imported, never called); a sample is cross-checked in a "
